@@ -238,4 +238,32 @@ theorem C10_tag_tables :
     [cmdFlagsLen, cmdLenLen, cmdIdLen, cmdMinRequired, cmdMaxRequired] = [1, 8, 2, 16, 24] := by
   decide
 
+/-! ### non-vacuity: admissible messages, incomplete frames and concrete chunked runs -/
+
+example : okLaneReq okMapMsg (.command (.op (.update [1, 2] [3]))) := by
+  simp [okLaneReq, okMapMsg, okMapOp]
+
+example : Incomplete (encLaneReq encMapMsg) (okLaneReq okMapMsg) [0, 0, 0] :=
+  ⟨.command (.op .clear), [0, 0, 0, 0, 0, 1, 2], trivial, by simp, by decide⟩
+
+/-- three reads, cut inside the length and inside the next frame: both messages, one byte of a `Sync` pending -/
+example : (run (laneRequest rawMapMsg) [[0, 0, 0, 0], [0, 0, 0, 0, 1, 2, 4], [1]]).items
+      = [.command (.op .clear), .initComplete] ∧
+    (run (laneRequest rawMapMsg) [[0, 0, 0, 0], [0, 0, 0, 0, 1, 2, 4], [1]]).buf = [1] := by decide
+
+example : (run (laneResponse wlb) [[1, 9, 9, 9, 9, 9, 9, 9, 9], [9, 9, 9, 9, 9, 9, 9, 9, 0, 0, 0], [0, 0, 0, 0, 1, 7]]).items
+    = [.syncEvent [9, 9, 9, 9, 9, 9, 9, 9, 9, 9, 9, 9, 9, 9, 9, 9] [7]] := by decide
+
+example : okReqMsg ⟨be 16 7, [110], [108], .command [1, 2, 3]⟩ :=
+  ⟨⟨by decide, by decide, by decide, by decide, by decide⟩, by decide⟩
+
+example : okRespMsg ⟨be 16 7, [195, 169], [108], .unlinked none⟩ :=
+  ⟨⟨by decide, by decide, by decide, by decide, by decide⟩, by decide, by decide⟩
+
+example : (run (Dec.ofParser rawResponse)
+      [(encRespMsg ⟨be 16 7, [110], [108], .event [5]⟩).take 33, (encRespMsg ⟨be 16 7, [110], [108], .event [5]⟩).drop 33]).items
+    = [⟨be 16 7, [110], [108], .event [5]⟩] := by decide
+
+example : okDlBody [1, 2, 3] := by simp [okDlBody]
+
 end SwimVerif.Frames
